@@ -213,27 +213,72 @@ func (r *Report) NViolations() int { r.mu.Lock(); defer r.mu.Unlock(); return le
 // Parallel runs fn(i) for i in [0,n) on all cores (fn must only use the thread-safe Report
 // methods and its own data). It stops handing out work once the deadline has passed.
 func (r *Report) Parallel(n int, fn func(i int)) {
+	r.ParallelWatch(n, fn, 0, nil)
+}
+
+// ParallelWatch is Parallel with non-termination detection: when limit > 0 and one case has been
+// running for longer than limit (real time; meant to be orders of magnitude above what a case
+// takes — the cases are microsecond-to-millisecond calls into sequential code), the case is
+// reported through stuck(i) and the run ends at once (a spinning goroutine cannot be stopped, so
+// the remaining cases are not run and the evidence says exhaustive:false).
+func (r *Report) ParallelWatch(n int, fn func(i int), limit time.Duration, stuck func(i int)) {
 	var wg sync.WaitGroup
 	next := int64(-1)
 	var mu sync.Mutex
 	w := runtime.NumCPU()
+	cur := make([]int, w)
+	since := make([]time.Time, w)
+	for k := range cur {
+		cur[k] = -1
+	}
+	done := make(chan struct{})
+	if limit > 0 {
+		go func() {
+			t := time.NewTicker(time.Second)
+			defer t.Stop()
+			for {
+				select {
+				case <-done:
+					return
+				case <-t.C:
+				}
+				mu.Lock()
+				hung := -1
+				for k := range cur {
+					if cur[k] >= 0 && time.Since(since[k]) > limit {
+						hung = cur[k]
+					}
+				}
+				mu.Unlock()
+				if hung >= 0 {
+					stuck(hung)
+					r.Exhaustive = false
+					r.Finish()
+				}
+			}
+		}()
+	}
 	for k := 0; k < w; k++ {
 		wg.Add(1)
-		go func() {
+		go func(k int) {
 			defer wg.Done()
 			for {
 				mu.Lock()
 				next++
 				i := int(next)
-				mu.Unlock()
 				if i >= n || r.TimeUp() {
+					cur[k] = -1
+					mu.Unlock()
 					return
 				}
+				cur[k], since[k] = i, time.Now()
+				mu.Unlock()
 				fn(i)
 			}
-		}()
+		}(k)
 	}
 	wg.Wait()
+	close(done)
 }
 
 // Finish writes the evidence file, prints the verdict lines and exits.
